@@ -4,8 +4,9 @@
    (set insertion / removal, lookup = the subscribers holding a matching filter, once each);
    Spec.BrokerSpec.held_ix meets it by construction, the trie meets it by C01.  The harness runs the
    trie instance and the specification instance against the real broker on every run. *)
+From Emitter Require Import Proofs.TrieReach Proofs.TrieIx.
 From Emitter Require Import Lib.Base Model.MsgCodec Model.Channel Model.Key Model.Trie Model.Store Model.Broker
-     Spec.PubSub Spec.BrokerSpec Proofs.TrieReach Proofs.BrokerProofs Proofs.BrokerStep Proofs.TrieIx.
+     Spec.PubSub Spec.BrokerSpec Proofs.BrokerProofs Proofs.BrokerStep.
 
 (* a publish the broker accepted is written exactly once to each connection that holds, at that
    moment, a subscription whose filter matches - minus the publisher if it excluded itself - and
@@ -71,7 +72,7 @@ Print Assumptions C02_spec_index_meets_contract.
 
 (* ... and so does the model of the code, the trie, for every history of filters outside $share
    groups (C01's refinement): the statements above hold of the trie-indexed broker *)
-Theorem C02_trie_index_meets_contract : IxSpec trie_ix abs trie_inv noshare.
+Theorem C02_trie_index_meets_contract : IxSpec trie_ix TrieReach.abs trie_inv noshare.
 Proof. exact trie_ix_spec. Qed.
 Print Assumptions C02_trie_index_meets_contract.
 
